@@ -53,13 +53,14 @@ func c09(p *Prog, r *Report) {
 
 	// ---- R5: the identifiers are compared as what they are
 	const R5 = "C09.keys-are-injective-encodings"
-	r.Rule(R5, "every key and value of the ClientState maps is hex.EncodeToString(x) or string(x) of the identifier - an injective encoding, so two identifiers are one entry only if they are equal (a fixed-size array filled by copy truncates or pads)", 1)
+	r.Rule(R5, "every key and value of the ClientState maps is hex.EncodeToString(x), a base64/base32 EncodeToString(x) or string(x) of the identifier - an injective encoding, so two identifiers are one entry only if they are equal (a fixed-size array filled by copy truncates or pads)", 1)
 	{
 		s := p.NewSym(fin)
 		n, bad := 0, ""
 		inj := func(v ssa.Value) bool {
 			t := s.Of(v).String()
-			return strings.HasPrefix(t, "call<encoding/hex.EncodeToString>(") || strings.HasPrefix(t, "conv<string>(")
+			return strings.HasPrefix(t, "call<encoding/hex.EncodeToString>(") || strings.HasPrefix(t, "conv<string>(") ||
+				strings.HasPrefix(t, "call<(*encoding/base64.Encoding).EncodeToString>(") || strings.HasPrefix(t, "call<(*encoding/base32.Encoding).EncodeToString>(")
 		}
 		// in a helper of FinalizeIndex the key is judged at the call: the helper's
 		// parameter must be handed an injective encoding by FinalizeIndex, its only caller
